@@ -43,10 +43,34 @@ func provisionChecker(disk bool, fetch config.CRLFetchMode, strict bool, sig con
 	cfg := &config.CRLConfig{WorkDir: "/work", StorageTypeParsed: st, CDPConfig: &config.CDPConfig{CRLFetchModeParsed: fetch, CRLCDPStrict: strict}, SignatureValidationModeParsed: sig, UpdateIntervalParsed: 1800e9, CRLUrls: urls, CRLFiles: files}
 	cfg.TrustedSignatureCerts = trustedForNext
 	trustedForNext = nil
+	rawLikeParsed(cfg)
 	c := &CRLRevocationChecker{}
 	err := c.Provision(cfg, zap.NewNop())
 	verifrt.DropSpawned()
 	return c, err
+}
+
+// rawLikeParsed: the option texts of a configuration, spelt out the way the configuration parser would have
+// found them for the parsed values (a configuration object never holds a parsed value its text does not parse to)
+func rawLikeParsed(cfg *config.CRLConfig) {
+	cfg.StorageType = "disk"
+	if cfg.StorageTypeParsed == config.Memory {
+		cfg.StorageType = "memory"
+	}
+	switch cfg.SignatureValidationModeParsed {
+	case config.SignatureValidationModeVerify:
+		cfg.SignatureValidationMode = "verify"
+	case config.SignatureValidationModeVerifyLog:
+		cfg.SignatureValidationMode = "verify_log"
+	case config.SignatureValidationModeNone:
+		cfg.SignatureValidationMode = "none"
+	}
+	if cfg.CDPConfig != nil {
+		cfg.CDPConfig.CRLFetchMode = "fetch_actively"
+		if cfg.CDPConfig.CRLFetchModeParsed == config.CRLFetchModeBackground {
+			cfg.CDPConfig.CRLFetchMode = "fetch_background"
+		}
+	}
 }
 
 // rebootChecker: the process died and was started again on the same work_dir: every handle, lock, goroutine
